@@ -93,6 +93,8 @@ type vCase struct {
 	Rk        int    `json:"rk"`
 	Goodk     []int  `json:"goodk"`
 	Goodb     []int  `json:"goodb"`
+	Reboot    bool   `json:"reboot"` // clean reboot requested by snapd (piboot: tryboot iff kernel_status=try) instead of a power loss
+	Mark      bool   `json:"mark"`   // after a boot that reaches snapd run the real MarkBootSuccessful
 }
 
 // ---------------------------------------------------------------- device
@@ -669,8 +671,8 @@ func hasInt(l []int, r int) bool {
 // pipeline boots the device from the current real state: firmware step per the spec's table, initramfs by the
 // REAL code. failTrial: a boot that involves a revision outside goodk/goodb fails (reboot) - the worst case for a
 // trial. Returns the sequence of boot attempts and how it ended: ok | halt | loop.
-func (w *world) pipeline(start string, cmdtrying bool, rk int, failTrial bool, goodk, goodb []int) (boots []pBoot, end string) {
-	b := vBoot{Phase: start, Cmdtrying: cmdtrying, Rk: rk}
+func (w *world) pipeline(start string, cmdtrying bool, rk int, tryboot bool, failTrial bool, goodk, goodb []int) (boots []pBoot, end string) {
+	b := vBoot{Phase: start, Cmdtrying: cmdtrying, Rk: rk, Tryboot: tryboot}
 	for n := 0; n < 8; n++ {
 		if b.Phase == "fw" {
 			nb := w.fw(b, w.present())
@@ -733,9 +735,17 @@ func (w *world) pipeline(start string, cmdtrying bool, rk int, failTrial bool, g
 func runPipeCase(w *world, c vCase, out *outw) {
 	for pass := 1; pass <= 2; pass++ {
 		w.materialise(*c.D, *c.Pres)
-		boots, end := w.pipeline(c.Start, c.Cmdtrying, c.Rk, pass == 2, c.Goodk, c.Goodb)
+		tryboot := c.Reboot && w.variant == "UC20ns" && c.D.Kst == "try"
+		boots, end := w.pipeline(c.Start, c.Cmdtrying, c.Rk, tryboot, pass == 2, c.Goodk, c.Goodb)
+		booted := normCk(w.project())
+		markErr := ""
+		if end == "ok" && c.Mark {
+			if err, _ := w.runAction("Mark", 0, -1); err != nil {
+				markErr = err.Error()
+			}
+		}
 		out.put(map[string]interface{}{"ev": "Pipe", "case": c.ID, "pass": pass, "boots": boots, "end": end,
-			"final": normCk(w.project())})
+			"booted": booted, "final": normCk(w.project()), "mark_err": markErr})
 	}
 }
 
